@@ -41,13 +41,260 @@ known_signature = known_signature_for({"KC"})   # KC: e2e engine, finding C15-4
 # gate part: GateMetrics num_updates / num_dropped_updates (src/comms.rs) against the Gate model (theorems C15_gate_*)
 from props.c08 import C15_GATE_ENGINE  # noqa: E402
 ENGINES.append(C15_GATE_ENGINE)
+
+
+# unit level part: the per-router counters of the connection handler (src/units/bmp_tcp_in/metrics.rs RouterMetrics:
+# received per RFC 7854 type, processed, invalid, receive io errors) and connection_lost_count, read from the rendered /metrics
+# text while the connection is up (op G of the `bstream` engine) and after it ended, against the counters of the read-loop model
+# (Bmp/BmpStreamModel.v loopm; theorems C15_unit_counters_*). Every /metrics text goes through the independent exposition-format
+# reader of the harness (engines/promtext.rs).
+import props.bstream_common as BS  # noqa: E402
+
+UNIT_RULE = ("unit level: BMP streams built for the counters - every RFC 7854 message type incl. Route Mirroring (type 6), messages the state "
+             "machine rejects (before the Initiation, after the Termination, for peers that are not up, duplicate Peer Ups, unparsable UPDATEs), "
+             "frames the parser rejects (type octets 7..255, wrong version, header-only), read errors of every io::ErrorKind class at and inside "
+             "frames, end of file or unit shutdown; the HTTP client reads /metrics (after the router's pages) at random moments between reads and "
+             "the text is read again after the session; non-trivial = a read of the counters that shows at least one processed message and at "
+             "least one invalid message or receive error")
+
+
+def junk_frame(rng):
+    """a correctly framed message routecore's from_octets rejects whatever else it holds (bstream_common.trivially_unparsable)"""
+    k = rng.weighted([("type", 60), ("version", 25), ("header-only", 15)])
+    if k == "header-only":
+        return [3, 0, 0, 0, 5]
+    body = [rng.below(256) for _ in range(rng.range(0, 30))]
+    typ = rng.choice([7, 8, 9, 255, rng.range(7, 255)]) if k == "type" else rng.below(7)
+    ver = 3 if k == "type" else rng.choice([0, 1, 2, 4, 255])
+    return [ver] + list((6 + len(body)).to_bytes(4, "big")) + [typ] + body
+
+
+def unit_plan(rng):
+    """list of steps: a descriptor (str), a raw frame (list of octets), ('err', kind) or BS.GET"""
+    peers = BS.rng_sample(rng, list(range(10)), rng.range(1, 3))
+    others = [p for p in range(10) if p not in peers]
+    plan = []
+    if rng.chance(88):
+        plan.append("I")
+    up = set()
+    for p in peers:
+        if rng.chance(85):
+            plan.append("U.%d.%d" % (p, rng.below(2)))
+            up.add(p)
+    for _ in range(rng.range(3, 18)):
+        p = rng.choice(sorted(up)) if up and rng.chance(85) else rng.choice(peers + others[:2])
+        k = rng.weighted([("R", 22), ("W", 6), ("E", 5), ("N", 6), ("S", 9), ("M", 9), ("D", 8), ("U", 8), ("I", 4), ("X", 2),
+                          ("junk", 10), ("err", 7), ("get", 14)])
+        if k == "R":
+            ps = "+".join(str(x) for x in sorted(set(rng.below(6) + 1 for _ in range(rng.range(1, 3)))))
+            plan.append("R.%d.0.%d.%s.0.-" % (p, rng.below(4), ps))
+        elif k == "W":
+            plan.append("R.%d.0.0.-.0.%d" % (p, rng.below(6) + 1))
+        elif k == "E":
+            plan.append("E.%d.0" % p)
+        elif k in ("N", "S", "M", "D"):
+            plan.append("%s.%d" % (k, p))
+            if k == "D":
+                up.discard(p)
+        elif k == "U":
+            plan.append("U.%d.%d" % (p, rng.below(2)))
+            up.add(p)
+        elif k in ("I", "X"):
+            plan.append(k)
+            if k == "X":
+                up.clear()
+        elif k == "junk":
+            plan.append(junk_frame(rng))
+        elif k == "err":
+            plan.append(("err", rng.choice(sorted(BS.NONFATAL)) if rng.chance(75) else rng.choice(BS.KINDS)))
+        else:
+            plan.append(BS.GET)
+    if rng.chance(90):
+        plan.append(BS.GET)
+    return plan
+
+
+def unit_case(rng, plan, pool):
+    table = {pool[d]: d for d in plan if isinstance(d, str) and d != BS.GET}
+    items = []
+    for d in plan:
+        if d == BS.GET:
+            items.append(BS.GET)
+        elif isinstance(d, tuple):
+            items.append(d[1])
+        elif isinstance(d, list):
+            items += d
+        else:
+            items += list(bytes.fromhex(pool[d]))
+    if rng.chance(8):      # a read error inside a frame: the partial frame is lost, framing restarts in the middle of it
+        items.insert(rng.below(len(items) + 1), rng.choice(sorted(BS.NONFATAL)))
+    return BS.make_case(BS.Stream(items), table, rng.chance(25), rng)
+
+
+def gen_unit(rng, tier):
+    n = 900 if tier == "quick" else 25000
+    plans = [unit_plan(rng) for _ in range(n)]
+    pool = BS.render(sorted({d for pl in plans for d in pl if isinstance(d, str) and d != BS.GET}))
+    for pl in plans:
+        yield unit_case(rng, pl, pool)
+
+
+def corpus_unit():
+    fixed = [
+        # every type once, a rejected frame of type 9, a read that times out, a Peer Down for a peer that is not up; the counters
+        # before anything arrived, in the middle, and after the last message
+        [BS.GET, "I", "U.0.1", "M.0", BS.GET, ("err", "timedout"), "S.0", [3, 0, 0, 0, 6, 9], "D.5", "R.0.0.1.1+2.0.-", "X", "D.0", BS.GET],
+        # nothing but rejected traffic: no Initiation, so every message is invalid
+        ["U.0.1", "S.0", "M.0", BS.GET],
+        # type octets at the edge of the seven slots: 6 is counted, 7 and 255 are io errors - never an index out of range
+        ["I", "M.3", [3, 0, 0, 0, 6, 7], [3, 0, 0, 0, 7, 255, 0], [3, 0, 0, 0, 6, 6], BS.GET],
+        # a fatal read error ends the session between two visits
+        ["I", BS.GET, ("err", "connectionreset"), "U.0.1", BS.GET],
+    ]
+    pool = BS.render(sorted({d for pl in fixed for d in pl if isinstance(d, str) and d != BS.GET}))
+    out = []
+    for pl in fixed:
+        table = {pool[d]: d for d in pl if isinstance(d, str) and d != BS.GET}
+        items = []
+        for d in pl:
+            items += [BS.GET] if d == BS.GET else [d[1]] if isinstance(d, tuple) else d if isinstance(d, list) else list(bytes.fromhex(pool[d]))
+        out.append(BS.make_case(BS.Stream(items), table, False, None))
+    return out + ["G;Z hang", "B 0300000004", "E interrupted;G;E other;G;E brokenpipe"]
+
+
+def nontrivial_unit(case, out):
+    import re
+    for x in out.split():
+        m = re.match(r"^k:[\d.]+,p(\d+),i(\d+),e(\d+),", x)
+        if m and int(m.group(1)) >= 1 and (int(m.group(2)) >= 1 or int(m.group(3)) >= 1):
+            return True
+    return False
+
+
+def classify_unit(case, out):
+    import re
+    ks = BS.classify(case, out)
+    reads = [x for x in out.split() if x.startswith("k:") and x != "k:-"]
+    if reads:
+        ks.append("unit-counters-read")
+    for x in reads:
+        m = re.match(r"^k:([\d.]+),p(\d+),i(\d+),e(\d+),", x)
+        if not m:
+            continue
+        recv = [int(v) for v in m.group(1).split(".")]
+        for t, v in enumerate(recv):
+            if v:
+                ks.append(f"type-{t}-counted")
+        if int(m.group(3)):
+            ks.append("invalid-counted")
+        if int(m.group(4)):
+            ks.append("io-errors-counted")
+        if max(recv) >= 5:
+            ks.append("a-type-counted-5-times-or-more")
+    return sorted(set(ks))
+
+
+ENGINES.append({"name": "bstream", "gen": gen_unit, "corpus": corpus_unit, "nontrivial": nontrivial_unit, "classify": classify_unit, "shards": 12})
+RULE = RULE + "; " + UNIT_RULE
+TRUSTED_BASE = TRUSTED_BASE + [
+    "Rust harness engine `bstream` (see C06/C07): the real RouterHandler::read_from_router over a scripted reader; the unit level counters are "
+    "read from the text StreamFixture::metrics_prometheus renders (both metric sources of the unit through the real Target, as /metrics does), "
+    "after GET /routers/ and GET /routers/<id> through the real request processors",
+    "harness/src/engines/promtext.rs: an independent reader of the Prometheus text format, written from the format's description; every /metrics "
+    "text of the bstream engine goes through it (hard rules: line grammar, HELP and TYPE before the first sample of a family, TYPE lines agree, "
+    "no label twice, no series twice); the reader itself is exercised on a corpus of well-formed and malformed texts on every run (extra c15-promtext)",
+    "OCaml driver oracle/eng_bstream.ml: prints the counters of BmpStreamModel.run_from_m / conn_at; its parser argument is the parse table of the case",
+]
+ASSUMPTIONS = ASSUMPTIONS + [
+    "unit level counters: routecore's Message::from_octets accepts no frame whose type octet is above 6 (BmpStreamModel.parse_types_ok; "
+    "C15_unit_counters_index_needs_parser_guarantee shows the index panic without it; run on frames of type 7..255 on every check); no roto filter is "
+    "configured (every accepted message is handed to the state machine); the router id does not change during a session (format_source_id ignores "
+    "the sysName on this tree: C19_metrics_labels_safe); counters are read between two reads of the connection, after the client looked at the "
+    "router's pages (which creates the router's zeroed entry: page_visit)",
+]
+
+
+def promtext_selftest(V, tier, seed):
+    """The exposition-format reader of the harness on texts whose verdict is known: it must accept the well-formed ones (incl. the
+    optional features rotonda never uses) and name the departure of each malformed one."""
+    import subprocess
+    ok_head = "# HELP a_total help text\n# TYPE a_total counter\n"
+    texts = [
+        ("", "ok families:0 series:0 strict:ok"),
+        (ok_head + 'a_total{x="1"} 1\na_total{x="2"} 2\n', "ok families:1 series:2 strict:ok"),
+        (ok_head + 'a_total 1.5e3 1700000000000\n\n# a comment\n', "ok families:1 series:1 strict:ok"),
+        (ok_head + 'a_total{x="a\\\\b\\"c\\nd",} +Inf\n', "ok families:1 series:1 strict:ok"),
+        ("# HELP h help\n# TYPE h histogram\nh_bucket{le=\"1\"} 1\nh_bucket{le=\"+Inf\"} 2\nh_sum 3\nh_count 2\n", "ok families:1 series:4 strict:ok"),
+        (ok_head + 'a_total{x="1"} 1\n' + ok_head + 'a_total{x="2"} 2\n', "ok families:1 series:2 strict:help-repeated,type-repeated,type-after-sample"),
+        (ok_head + 'a_total{x="1"} 1\n# HELP b h\n# TYPE b gauge\nb 1\na_total{x="2"} 2\n', "ok families:2 series:3 strict:family-split"),
+        (ok_head + "a_total 1", "BAD:no-final-newline@3"),
+        (ok_head + 'a_total{x="1"} 1\na_total{x="1"} 2\n', "BAD:series-twice@4"),
+        (ok_head + 'a_total{x="1",x="2"} 1\n', "BAD:label-twice@3"),
+        (ok_head + 'a_total{x="a"b"} 1\n', "BAD:label-separator@3"),
+        (ok_head + 'a_total{x="a\\tb"} 1\n', "BAD:label-value-escape@3"),
+        (ok_head + 'a_total{x="a\nb"} 1\n', "BAD:label-value-unterminated@3"),
+        (ok_head + 'a_total{x=1} 1\n', "BAD:label-quote@3"),
+        (ok_head + 'a_total{1x="1"} 1\n', "BAD:label-name@3"),
+        (ok_head + "a_total one\n", "BAD:value@3"),
+        (ok_head + "a_total\n", "BAD:value-missing@3"),
+        (ok_head + "a_total 1 2 3\n", "BAD:trailing-text@3"),
+        (ok_head + "a_total 1 soon\n", "BAD:timestamp@3"),
+        (ok_head + "1a 1\n", "BAD:metric-name@3"),
+        ("a_total 1\n" + ok_head, "BAD:sample-before-type@1"),
+        ("# TYPE a_total counter\na_total 1\n", "BAD:sample-before-help@2"),
+        ("# HELP a_total h\na_total 1\n", "BAD:sample-before-type@2"),
+        (ok_head + "# TYPE a_total gauge\n", "BAD:type-conflict@3"),
+        ("# TYPE a_total meter\n", "BAD:type-unknown@1"),
+        ("# HELP a-b h\n", "BAD:header-name@1"),
+        (ok_head + "a_total 1\r\n", "BAD:carriage-return@3"),
+    ]
+    got = V.run_lines(V.VH, "promtext", [t.encode().hex() for t, _ in texts])
+    fails = []
+    for (t, want), g in zip(texts, got):
+        if g != want:
+            fails.append({"what": f"the exposition-format reader of the harness answers {g!r} for {t!r}; expected {want!r}", "kind": "correspondence",
+                          "suffix": "no-failing-input-found", "replay_cmd": f"echo {t.encode().hex()} | {V.VH} promtext"})
+    return {"name": "c15-promtext", "evaluations": len(texts), "coverage": {"texts": len(texts), "rejected_classes": sum(w.startswith("BAD") for _, w in texts)},
+            "failures": fails[:3]}
+
+
+def strict_exposition(V, tier, seed):
+    """The /metrics text of the unit while a router is connected, against the STRICT rules of the text format (one HELP and one
+    TYPE line per metric name, all lines of a family in one group): known finding C15-5."""
+    import subprocess
+    p = subprocess.run([V.VH, "bstream-expo"], stdout=subprocess.PIPE, text=True, timeout=120)
+    lines = dict(l.split(": ", 1) for l in p.stdout.strip().splitlines() if ": " in l)
+    r = {"name": "c15-strict-exposition", "evaluations": 2, "coverage": dict(lines), "failures": []}
+    for when in ("up", "after"):
+        v = lines.get(when, "missing")
+        if not v.startswith("ok "):
+            r["failures"].append({"what": f"/metrics text ({when}): the independent reader rejects it: {v!r}", "kind": "property",
+                                  "replay_cmd": f"{V.VH} bstream-expo raw"})
+        elif not v.endswith("strict:ok"):
+            r["failures"].append({"what": f"/metrics text ({when}) is read by a lenient consumer but departs from the strict text format: "
+                                          f"per-router series repeat their HELP/TYPE lines: {v!r}", "kind": "property",
+                                  "replay_cmd": f"{V.VH} bstream-expo raw"})
+    return r
+
+
+EXTRAS = [promtext_selftest, strict_exposition]
+
 LEVEL_TEXT = ("Theorems over all message histories of the state-machine model: the three peer gauges equal the numbers read off the peer table at every "
-              "point, every counter equals the number of matching events, counters are monotone, the state metric follows the phase. Kernel-checked, "
-              "axiom-free; tied to the real code by reading the rendered Prometheus exposition at random quiescent points of generated histories.")
+              "point, every counter equals the number of matching events, counters are monotone, the state metric follows the phase; over all scripts of "
+              "read events of the connection model: every unit level counter equals the number of matching iterations of the read loop, at the end and at "
+              "every quiescent point. Kernel-checked, axiom-free; tied to the real code by reading the rendered Prometheus exposition at random quiescent "
+              "points of generated histories and byte streams.")
 DESIGN_REF = "DESIGN.md section 6, C15"
-LEVEL_NOTE = ("Trusted: Coq kernel, extraction + OCaml driver, Rust harness and its parser of the Prometheus text. Of the unit level metrics, connected "
-              "routers and connections accepted / lost are modelled in E2e/E2eModel.v (accepted = lost + connected for all histories; the rendered gauge "
-              "never exceeds it; known finding C15-4) and read from GET /metrics of a real pipeline by the `e2e` engine; gate counters (num_updates / "
-              "num_dropped_updates): engine c15gate over the Gate model of C08, theorems C15_gate_*; per-type message counts are NOT modelled; "
-              "see DESIGN.md and design-notes/E2E.md.")
+LEVEL_NOTE = ("Trusted: Coq kernel, extraction + OCaml driver, Rust harness and its independent reader of the Prometheus text. Unit level: the "
+              "per-router counters of the connection handler (received per RFC 7854 type, processed, invalid, receive io errors) and connection_lost_count "
+              "are modelled on the read loop of C06/C07 (Bmp/BmpStreamModel.v loopm) and proved, for ALL scripts of read events and every parser that "
+              "accepts no type above 6, to equal the number of matching loop iterations at the end and at every quiescent point, to be monotone, to satisfy "
+              "received = sum over types = processed, invalid = the state machine's unprocessable count, one lost connection per session (theorems "
+              "C15_unit_counters_*); tied to the real RouterHandler by the `bstream` engine reading the rendered text. Connected routers and connections "
+              "accepted are modelled in E2e/E2eModel.v (accepted = lost + connected for all histories; known finding C15-4) and read from GET /metrics of "
+              "a real pipeline by the `e2e` engine; gate counters: engine c15gate over the Gate model of C08, theorems C15_gate_*. The label sets of the "
+              "per-router series parse back exactly (C15_unit_counters_labels_parse, with C19_metrics_labels_safe). NOT modelled: the text writer "
+              "(Target::append*) beyond its label sets - the text is checked per run by the independent reader, not proved well-formed; the strict text "
+              "format (one HELP/TYPE per name) is departed from: known finding C15-5; the roto-filter branch of process_msg (a Reject would make "
+              "received > processed); BGP unit and RIB unit metrics. See DESIGN.md, design-notes/C15.md and design-notes/E2E.md.")
 TECHNIQUE = "Coq proof by invariant over message histories + model/implementation correspondence on rendered metrics"
